@@ -331,10 +331,9 @@ class LRI(dict):
         with self._lock:
             if self is other:
                 return True
-            if len(other) != len(self):
-                return False
-            if not isinstance(other, LRI):
-                return other == self
+            # dict.__eq__ compares lengths first and returns
+            # NotImplemented for a non-dict (other's __eq__ is then
+            # tried); calling other == self from here recursed forever
             return super().__eq__(other)
 
     def __ne__(self, other):
